@@ -66,6 +66,9 @@ func genC16(seed uint64, run int, tier string) *Plan {
 	if r.IntN(5) == 0 {
 		p.Cfg.Store = "file"
 	}
+	if p.Cfg.Store == "file" {
+		p.Cfg.DiskLatMs = pick(newRNG(seed, 0xd15c), int64(0), 0, 1, 5, 20)
+	}
 	p.Cfg.SharedSess = r.IntN(4) == 0
 	p.Cfg.Fine = fineTier(tier, seed, 15, 3)
 	p.Cfg.CloseAtEnd = r.IntN(2) == 0
